@@ -28,6 +28,10 @@ class Spec:
     def normalize(self, obs):
         return obs
 
+    def agree(self, case, impl_obs, model_obs):
+        """does the implementation's observation agree with the model's?"""
+        return self.normalize(impl_obs) == self.normalize(model_obs)
+
     def oracle_line(self, case, impl_obs):
         """case + implementation observation -> a chk_* line for modelrun, or None"""
         return None
@@ -114,7 +118,7 @@ def run_spec(spec, tier, seed, replay=None):
         if ok_m:
             log("%s: %d cases -> model" % (spec.pid, len(cases)))
             model = vlib.run_lines([vlib.MODELRUN], cases)
-            diffs = [i for i in range(len(cases)) if spec.normalize(impl[i]) != spec.normalize(model[i])]
+            diffs = [i for i in range(len(cases)) if not spec.agree(cases[i], impl[i], model[i])]
             # oracle on the implementation's own observations (direct evaluation of
             # the property's decidable form on what the real code produced)
             olines, oidx = [], []
